@@ -25,6 +25,8 @@ mod selection_help;
 mod sorters;
 mod splitter;
 mod variables_extractor;
+#[cfg(yift_jawk_verif)]
+pub mod verif;
 
 use additional_help::display_additional_help;
 use clap::Parser;
